@@ -12,6 +12,7 @@ import Mappy.Gen.Schemas
 import Mappy.Gen.Patterns
 import Mappy.Gen.Props
 import Mappy.Props.C19
+import Mappy.Props.C09Classes
 import Mappy.Model.Validator
 
 namespace Mappy.Create
@@ -207,24 +208,6 @@ namespace Mappy.Create
 open Mappy Mappy.Versioning
 
 /-! ### over the regenerated schema folder -/
-
-mutual
-/-- every number written as `minVersion` / `maxVersion` anywhere in a document, in thousandths -/
-def boundsJ : J → List Int
-  | .dict kvs => boundsF kvs
-  | .list xs => boundsL xs
-  | _ => []
-def boundsF : Fields → List Int
-  | [] => []
-  | (k, v) :: r =>
-    (if k = minKey || k = maxKey then (match numMilli v with | some n => [n] | none => []) else []) ++ boundsJ v ++ boundsF r
-def boundsL : List J → List Int
-  | [] => []
-  | x :: r => boundsJ x ++ boundsL r
-end
-
-/-- the distinct version bounds of the folder -/
-def folderBounds : List Int := (boundsF Gen.files).eraseDups
 
 /-- the version points at which `create` is evaluated: no version, one point below every bound, every bound, and one
 thousandth above every bound — one representative of every class of versions the filter can tell apart (it only ever
